@@ -81,6 +81,20 @@ CLAIMED = {
          "assumed contracts (mirrored and compared)"),
    technique="Lean 4 theorems over the rewrite model + handler-level differential with spec oracle",
    design='7/C09'),
+ 'C12': dict(
+   text=("Proof (Lean 4) in Go's own integer widths: outflow.add is an exact int32 overflow test (outflow_add_correct), take never "
+         "overdraws stream or connection window (outflow_take_safe), inflow.take accepts iff within the advertised window "
+         "(inflow_take_enforces), inflow.add returns or batches credit with the two panics characterised (inflow_add_returns, "
+         "inflow_add_panics_iff), and for UNBOUNDED histories of take/add the un-returned credit stays < 4096 with "
+         "received = returned + unsent (no_leak, by invariant); the send-side discipline (never more DATA than stream window, "
+         "connection window, max frame size; pieces add up; all queued data conserved) is proved for the scheduler model in C20. "
+         "Constants regenerated; flow.go and Consume tied by exact differentials incl. boundary and overflow values"),
+   note=("PARTIAL: the server's and transport's use of these primitives (processData branches, noteBodyRead, closeStream, "
+         "processSettingInitialWindowSize) is exercised by the server-level streams but not yet modelled as a ledger; D14 (double "
+         "connection-level refund after RST_STREAM + late read) is recorded in DESIGN.md. Trusted: Lean kernel + standard axioms; "
+         "translator; harness (package-internal access through overlay)"),
+   technique="Lean 4 arithmetic + invariant proofs (int32 semantics) + function-level differential",
+   design='7/C12'),
  'C14': dict(
    text=("Proof (Lean 4) over a model of the two watched paths and CertWatcher's load-validate-then-swap: for EVERY history of update "
          "steps (incl. garbage, empty, partial, mismatched) the served pair is the initial one or one whose certificate and key were on "
@@ -140,6 +154,19 @@ CLAIMED = {
          "the closed listener are outside the model (D16)"),
    technique="Lean 4 invariant proof over all interleavings + regenerated program-order facts + end-to-end cancellation scenarios",
    design='7/C17'),
+ 'C20': dict(
+   text=("Proof (Lean 4) for the round-robin scheduler model (writeQueue, Consume, ring) and the random scheduler as an arbitrary choice "
+         "among ready streams: control frames first (control_first_*), every released DATA piece within stream window, connection "
+         "window and max frame size with the connection window charged exactly (respects_windows_rr, consume_spec), split pieces "
+         "add up (pieces_concatenate), Pop reports nothing only when nothing is sendable (pop_none_iff_rr), and for EVERY sequence of "
+         "open/close/push/pop/window operations frames and DATA bytes pushed = handed out + queued + discarded by close "
+         "(conservation_rr, by invariant). Model tied to the real schedulers by an exact differential (random: the model follows "
+         "the implementation's admissible choice)"),
+   note=("PARTIAL: the priority scheduler (tree maintenance, D7 idle->open eviction) is not yet covered by theorems; stream order is "
+         "given by the FIFO step lemmas (push appends, pop takes the head), not yet as a trace theorem. Trusted: Lean kernel + "
+         "standard axioms; harness"),
+   technique="Lean 4 invariant proof over operation sequences + exact differential through package-internal access",
+   design='7/C20'),
 }
 ALL = [f'C{i:02d}' for i in range(1, 21)]
 
